@@ -185,10 +185,10 @@ Record LibcRoundTripSpec (strtod : bytes -> option (dbl * nat)) (fmt_d : Z -> by
   (* N3: 17 significant digits identify a double (IEEE 754 round trip) *)
   lr_g17 : forall d, is_finite d = true -> dbl_ok d -> exists k, strtod (fmt_g17 d) = Some (d, k);
   (* N4: 15 significant digits survive decimal -> double -> decimal (DBL_DIG = 15) *)
-  lr_g15_stable : forall d t k, is_finite d = true ->
+  lr_g15_stable : forall d t k, is_finite d = true -> dbl_ok d ->
       strtod (fmt_g15 d) = Some (t, k) -> is_finite t = true -> fmt_g15 t = fmt_g15 d;
   (* N4z: reading back "%1.15g" of a nonzero double does not underflow to zero *)
-  lr_g15_nonzero : forall d t k, is_finite d = true ->
+  lr_g15_nonzero : forall d t k, is_finite d = true -> dbl_ok d ->
       strtod (fmt_g15 d) = Some (t, k) -> is_zero t = true -> is_zero d = true;
   (* N5a: "%1.15g" of (double) of an int is what "%d" prints for that int *)
   lr_g15_int : forall z, int_range z = true -> fmt_g15 (dbl_of_int z) = fmt_d z;
@@ -218,20 +218,20 @@ Section Number.
   Proof. apply sat_int_range. Qed.
 
   (** re-printing a double that print_number printed with 15 digits *)
-  Lemma reprint_g15 d t k : is_finite d = true -> is_zero d = false ->
+  Lemma reprint_g15 d t k : is_finite d = true -> dbl_ok d -> is_zero d = false ->
     strtod (fmt_g15 d) = Some (t, k) -> compare_double t d = true ->
     number_text (sat_int t) t = fmt_g15 d.
   Proof.
-    intros Hd Hnz Hs Hc.
+    intros Hd Hvd Hnz Hs Hc.
     pose proof (compare_double_finite_l t d Hc Hd) as Ht.
-    pose proof (lr_g15_stable _ _ _ _ _ R d t k Hd Hs Ht) as Hst.
+    pose proof (lr_g15_stable _ _ _ _ _ R d t k Hd Hvd Hs Ht) as Hst.
     pose proof (lr_valid _ _ _ _ _ R _ _ _ Hs) as Hv.
     assert (Hsc : sscanf_lg (fmt_g15 d) = Some t) by (apply (lr_scan _ _ _ _ _ R); exists k; exact Hs).
     unfold PrintDefs.number_text. rewrite (finite_nan_inf t Ht).
     destruct (deq t (dbl_of_int (sat_int t))) eqn:E2.
     - destruct (deq_true_cases _ _ E2) as [E | [Zt _]].
       + rewrite <- (lr_g15_int _ _ _ _ _ R (sat_int t) (int_of_ok t Hv)). rewrite <- E. exact Hst.
-      + rewrite (lr_g15_nonzero _ _ _ _ _ R d t k Hd Hs Zt) in Hnz. discriminate.
+      + rewrite (lr_g15_nonzero _ _ _ _ _ R d t k Hd Hvd Hs Zt) in Hnz. discriminate.
     - rewrite Hst, Hsc. rewrite (compare_double_refl t (finite_not_nan t Ht)). reflexivity.
   Qed.
 
@@ -288,7 +288,7 @@ Section Number.
              ++ destruct (lr_g15_exact _ _ _ _ _ R z Hz) as [k' Hk']. rewrite <- E in Hk'.
                 rewrite Hk in Hk'. injection Hk' as Et _. rewrite Et. apply deq_refl_finite, Hf.
              ++ rewrite Zd in Hnz. discriminate.
-          -- exact (reprint_g15 d test k Hf Hnz Hk Ec).
+          -- exact (reprint_g15 d test k Hf Hv Hnz Hk Ec).
         * (* 17 digits: the 15-digit text does not compare equal *)
           assert (Htxt : number_text vi d = fmt_g17 d).
           { unfold PrintDefs.number_text. rewrite (finite_nan_inf d Hf), Eint, Es, Ec. reflexivity. }
